@@ -18,10 +18,40 @@ def _tv_not(x):
 
 
 class Explorer:
-    def __init__(self, view, atoms):
+    def __init__(self, view, atoms, some_atoms=()):
         self.view = view
         self.b = view.body
         self.atoms = atoms
+        self.some_atoms = list(some_atoms)      # (term predicate, bool): the Option/Result term is Some/Ok (True) or None/Err
+
+    def is_some_term(self, x, depth=0):
+        """three-valued: the option-like term x is Some/Ok"""
+        if depth > 8:
+            return None
+        for pred, val in self.some_atoms:
+            if pred(x):
+                return val
+        if x[0] == "agg" and x[2] in ("Some", "Ok"):
+            return True
+        if x[0] == "agg" and x[2] in ("None", "Err"):
+            return False
+        if x[0] == "phi":
+            vals = {self.is_some_term(y, depth + 1) for y in x[1] if y[0] != "loop"}
+            if len(vals) == 1:
+                return vals.pop()
+        return None
+
+    def value_of(self, t):
+        """resolve option defaults under the assumptions: x.unwrap_or(d) is payload(x) when x is Some, d when None"""
+        from .view import mk_payload
+        if t[0] == "call" and isinstance(t[1], str) and core.callee_base(t[1]) in ("core::option::Option::unwrap_or", "core::result::Result::unwrap_or") \
+                and len(t[2]) == 2:
+            s = self.is_some_term(t[2][0])
+            if s is True:
+                return mk_payload(t[2][0])
+            if s is False:
+                return t[2][1]
+        return t
 
     def eval_term(self, t, depth=0):
         if depth > 12:
@@ -38,6 +68,12 @@ class Explorer:
         for pred, val in self.atoms:
             if pred(t):
                 return val
+        if k == "call" and isinstance(t[1], str) and len(t[2]) == 1 and self.some_atoms:
+            base = core.callee_base(t[1])
+            if base in ("core::option::Option::is_some", "core::result::Result::is_ok"):
+                return self.is_some_term(t[2][0])
+            if base in ("core::option::Option::is_none", "core::result::Result::is_err"):
+                return _tv_not(self.is_some_term(t[2][0]))
         if k == "un" and t[1] == "Not":
             return _tv_not(self.eval_term(t[2], depth + 1))
         if k == "bin" and t[1] in ("BitAnd", "BitOr"):
@@ -161,7 +197,22 @@ class Explorer:
                 elif t.get("discr_ty") not in (None, "bool"):
                     # `match x { CONST => .., _ => .. }`: each arm is the atomic condition x == CONST
                     x = self.view.op(t["discr"])
-                    if x[0] != "discr":
+                    sm = None
+                    if x[0] == "discr" and self.some_atoms:
+                        y = x[1]
+                        if y[0] == "call" and isinstance(y[1], str) and core.callee_base(y[1]) == "core::ops::Try::branch" and y[2]:
+                            r_ = self.is_some_term(y[2][0])
+                            sm = None if r_ is None else (0 if r_ else 1)       # Continue = 0, Break = 1
+                        else:
+                            r_ = self.is_some_term(y)
+                            sm = None if r_ is None else (1 if r_ else 0)       # Some = 1, None = 0
+                    if sm is not None:
+                        tgt = None
+                        for val, tb in t["targets"]:
+                            if val == sm:
+                                tgt = tb
+                        succ = [tgt if tgt is not None else t["otherwise"]]
+                    else:
                         keep = []
                         taken = None
                         for val, tb in t["targets"]:
@@ -191,8 +242,8 @@ class Explorer:
         return visited
 
 
-def explore(view, starts, atoms, stop=()):
-    return Explorer(view, atoms).run(starts, stop)
+def explore(view, starts, atoms, stop=(), some_atoms=()):
+    return Explorer(view, atoms, some_atoms).run(starts, stop)
 
 
 def must_pass(view, starts, atoms, through, ends):
@@ -433,7 +484,7 @@ def le_const(t, x_ok, bound):
     return None
 
 
-def values_under(view, starts, atoms, op_json, site_bb=None):
+def values_under(view, starts, atoms, op_json, site_bb=None, some_atoms=()):
     """the terms an operand can hold under the assumptions: the definitions of its (copy-chased) local that lie in blocks
     reachable from `starts` under `atoms`; an operand that is not a plain multiply-defined local yields its one term"""
     from .view import pnorm
@@ -446,7 +497,7 @@ def values_under(view, starts, atoms, op_json, site_bb=None):
              and not body.blocks[bi]["term"]["dest"]["proj"] and body.blocks[bi]["term"]["dest"]["local"] == local]
     if len(defs) + len(cdefs) <= 1:
         return {view.op(op_json)}
-    vis = explore(view, starts, atoms, stop=[site_bb] if site_bb is not None else ())
+    vis = explore(view, starts, atoms, stop=[site_bb] if site_bb is not None else (), some_atoms=some_atoms)
     if vis is None:
         return {("unknown", "budget")}
     out = set()
@@ -457,3 +508,29 @@ def values_under(view, starts, atoms, op_json, site_bb=None):
         if bi in vis:
             out.add(pnorm(view.T.call_term(bi)))
     return out
+
+
+def kind_atoms(lib, mk_ok, kind):
+    """atoms describing `the MatchKind value recognised by mk_ok is <kind>`: comparisons of its discriminant with constants
+    and calls of MatchKind's own predicates (their truth value obtained by constant folding the predicate's body)"""
+    adt = lib.adts.get("MatchKind")
+    variants = {v["name"]: v["discr"] for v in adt["variants"]}
+    k = variants[kind]
+    atoms = []
+    for name, j in variants.items():
+        def eqj(t, j=j):
+            if t[0] != "bin" or t[1] != "Eq":
+                return False
+            for x, c in ((t[2], t[3]), (t[3], t[2])):
+                if c[0] == "const" and c[1] == j and x[0] == "discr" and mk_ok(x[1]):
+                    return True
+            return False
+        atoms.append((eqj, j == k))
+    for b in lib.bodies.values():
+        if b.j.get("impl_adt") == "MatchKind" and b.j.get("impl_trait") is None and not b.is_closure and b.arg_count == 1:
+            val = fold_fn(b, ("variant", kind, k))
+            if val in (0, 1):
+                def callp(t, path=b.path):
+                    return t[0] == "call" and isinstance(t[1], str) and t[1].split("@")[0] == path.replace("<", "").replace(">", "") and len(t[2]) == 1 and mk_ok(t[2][0])
+                atoms.append((callp, bool(val)))
+    return atoms
